@@ -175,6 +175,19 @@ type sEmbeddedPtr struct {
 	*Emb  `argmapper:",typeOnly"`
 }
 
+// the embedded marker need not be the first field (reflect.StructOf can only embed a
+// type with methods in first position, so these are declared statically)
+type sMarkerMid struct {
+	Alpha T0
+	am.Struct
+	Beta T1 `argmapper:",typeOnly"`
+}
+type sMarkerLast struct {
+	Alpha T0 `argmapper:"x,subtype=s"`
+	Beta  T1
+	am.Struct
+}
+
 var _ = sUnexpA{}.beta
 var _ = sUnexpB{}.alpha
 var _ = sUnexpC{}.gamma
@@ -211,14 +224,24 @@ func (f fieldSpec) expect() am.Value {
 	return am.Value{Name: name, Type: typeOf(f.T), Subtype: sub}
 }
 
-func structOfFields(fs []fieldSpec) reflect.Type {
-	sf := []reflect.StructField{{Name: "Struct", Type: markerType, Anonymous: true}}
-	for _, f := range fs {
+func structOfFields(fs []fieldSpec) reflect.Type { return structOfFieldsAt(fs, 0) }
+
+// structOfFieldsAt places the embedded marker after markerPos ordinary fields.
+func structOfFieldsAt(fs []fieldSpec, markerPos int) reflect.Type {
+	var sf []reflect.StructField
+	marker := reflect.StructField{Name: "Struct", Type: markerType, Anonymous: true}
+	for i, f := range fs {
+		if i == markerPos {
+			sf = append(sf, marker)
+		}
 		x := reflect.StructField{Name: f.Name, Type: typeOf(f.T)}
 		if f.Tag != "" {
 			x.Tag = reflect.StructTag(fmt.Sprintf(`argmapper:"%s"`, f.Tag))
 		}
 		sf = append(sf, x)
+	}
+	if markerPos >= len(fs) {
+		sf = append(sf, marker)
 	}
 	return reflect.StructOf(sf)
 }
@@ -437,6 +460,8 @@ func init() {
 			{reflect.TypeOf(sUnexpB{}), []am.Value{{Type: typeOf(1)}}},
 			{reflect.TypeOf(sUnexpC{}), []am.Value{{Name: "q", Type: typeOf(0), Subtype: "s"}, {Name: "beta", Type: typeOf(1)}}},
 			{reflect.TypeOf(sUnexpD{}), []am.Value{}},
+			{reflect.TypeOf(sMarkerMid{}), []am.Value{{Name: "alpha", Type: typeOf(0)}, {Type: typeOf(1)}}},
+			{reflect.TypeOf(sMarkerLast{}), []am.Value{{Name: "x", Type: typeOf(0), Subtype: "s"}, {Name: "beta", Type: typeOf(1)}}},
 			{reflect.TypeOf(sEmbedded{}), []am.Value{{Name: "emb", Type: reflect.TypeOf(Emb{})}, {Name: "alpha", Type: typeOf(0)}}},
 			{reflect.TypeOf(sEmbeddedPtr{}), []am.Value{{Name: "alpha", Type: typeOf(0)}, {Type: reflect.TypeOf(&Emb{})}}},
 		} {
@@ -444,6 +469,9 @@ func init() {
 			emit(sigCase("func(*"+sc.t.String()+") T2", []reflect.Type{reflect.PtrTo(sc.t)}, simpleOut, sc.want, simpleOutV, false))
 			emit(sigCase("func() "+sc.t.String(), nil, []reflect.Type{sc.t}, []am.Value{}, sc.want, false))
 			emit(sigCase("func() (*"+sc.t.String()+", error)", nil, []reflect.Type{reflect.PtrTo(sc.t), errType}, []am.Value{}, sc.want, false))
+			emit(sigCase("func(T0, "+sc.t.String()+") [mixed]", []reflect.Type{typeOf(0), sc.t}, nil, nil, nil, true))
+			emit(sigCase("func() ("+sc.t.String()+", T0) [mixed result]", nil, []reflect.Type{sc.t, typeOf(0)}, nil, nil, true))
+			emit(sigCase("func(**"+sc.t.String()+") [double pointer]", []reflect.Type{reflect.PtrTo(reflect.PtrTo(sc.t))}, nil, nil, nil, true))
 		}
 		// non-function values
 		for _, nf := range []struct {
